@@ -168,9 +168,9 @@ func merges(n0, n1 int) [][]int {
 func runC11(r *ev.Run, thorough bool) int {
 	useVirtualClock()
 	var tasks []c11Task
-	nPay := 24
+	nPay := 128
 	if thorough {
-		nPay = 48
+		nPay = 512
 	}
 	// E1: L over consecutive values x every m in [1, L+2]
 	for p := 0; p < nPay; p++ {
